@@ -198,7 +198,7 @@ HINT_ELEMENT_END = r'''proof {
                         assert(mid.slot_ok(k));
                         if k > 0 { assert(mid.slot_ok(k - 1)); }
                     }
-                    assert forall|k: int| 0 <= k < self.ws@.len() implies
+                    assert forall|k: int| 0 <= k < self.ws@.len() implies   // #obl:process.element_added_to_exactly_the_covering_windows
                         (#[trigger] self.ws@[k]).acc.contents() == (if self.covers(k, ts) { mid.ws@[k].acc.contents().push(item) } else { mid.ws@[k].acc.contents() }) by {
                         if k < i0 { }
                         else if k < e {
